@@ -1,0 +1,9 @@
+//go:build verif
+
+// Contracts for the gvc verifier (/verif). Comment-only file: it adds no code to the package.
+package gwatchdog
+
+// Terminate cancels the watchdog's context: no effect on the memory the contracts of its callers talk about.
+//@ func Watchdog.Terminate
+//@   trusted
+//@   modifies nothing
